@@ -887,7 +887,7 @@ class RZILTransformer(Transformer):
             # Cast the data type to the mem store type
             data = self.init_a_cast(operation_value_type, data)
         return self.chk_hybrid_dep(
-            self.add_op(MemStore(f"ms_{data.get_name()}", va, data))
+            self.add_op(MemStore(f"ms_{data.pure_var()}", va, data))
         )
 
     # SPECIFIC FOR: Hexagon
@@ -899,7 +899,7 @@ class RZILTransformer(Transformer):
         if not isinstance(va, Pure):
             va = self.il_ops_holder.get_op_by_name(va.value)
 
-        return self.add_op(MemLoad(f"ml_{va.get_name()}", va, mem_acc_type))
+        return self.add_op(MemLoad(f"ml_{va.pure_var()}", va, mem_acc_type))
 
     def macro_expr(self, items):
         self.ext.set_token_meta_data("macro_expr")
@@ -1157,7 +1157,7 @@ class RZILTransformer(Transformer):
                 return None
 
         self.il_ops_holder.rm_op_by_name(a.get_name())
-        name = f'const_{"neg" if result < 0 else "pos"}_{result}'
+        name = f'const_{"neg" if result < 0 else "pos"}_{abs(result)}'
         return Number(name, result, a_type)
 
     def simplify_arithmetic_expr(self, items) -> Pure:
@@ -1192,7 +1192,7 @@ class RZILTransformer(Transformer):
                 raise NotImplementedError(f"Can not simplify '{operation}' expression.")
         a_type, b_type = c11_cast(a.value_type, b.value_type)
 
-        name = f'const_{"neg" if items[0] == "-" else "pos"}{items[1]}{items[2] if items[2] else ""}'
+        name = f'const_{"neg" if result < 0 else "pos"}_{abs(result)}'
         return Number(name, result, a_type)
 
     def simplify_compare_expr(self, items) -> Pure:
